@@ -267,6 +267,21 @@ func ScaledFamilies(big bool) []Scaled {
 		b.WriteString("def blk { fld = 5 }\n") // indices >= n: 2-byte operands
 		add(fmt.Sprintf("constpool-%d", n), b.String())
 	}
+	// operand indices >= 241 in every instruction kind that takes a constant or a slot:
+	// bind type, block type and name, field get/set, local get/set, POPN count
+	for _, n := range []int{238, 239, 240, 241, 242, 2287, 2288} {
+		var b strings.Builder
+		for i := 0; i < n; i++ {
+			fmt.Fprintf(&b, "print %d\n", i+2)
+		}
+		add(fmt.Sprintf("constpool-bind-%d", n), b.String()+"def blk \"nm\" { fld = 5; print fld }\ndef blk { fld = 6 }\nbind blk:last -> slice\nbind blk:all -> slice\nbind blk:first -> struct\n")
+		var v strings.Builder
+		for i := 0; i < n; i++ {
+			fmt.Fprintf(&v, "var v%d=%d\n", i, i)
+		}
+		add(fmt.Sprintf("locals-in-block-%d", n), "def blk {\n"+v.String()+"print v0 + v"+fmt.Sprint(n-1)+"\neval v"+fmt.Sprint(n-1)+" = 7\nx = v"+fmt.Sprint(n-1)+"\n}\nprint 1\n")
+		add(fmt.Sprintf("locals-top-%d", n), v.String()+"print v0 + v"+fmt.Sprint(n-1)+"\neval v"+fmt.Sprint(n-1)+" = 7\nprint v"+fmt.Sprint(n-1)+"\n")
+	}
 	// operand stack depth via right-nested parentheses: 1+(1+(1+...)) pushes depth n
 	for _, n := range []int{1022, 1023, 1024, 1025, 1026} {
 		add(fmt.Sprintf("stackdepth-%d", n), "print "+rep("2+(", n-1)+"2"+rep(")", n-1))
